@@ -178,6 +178,15 @@ class Judge:
             return out
         knobs = res["knobs"]
         tol = knobs.get("tol", 1e-4)
+        # (largest iterate the session's in-place buffers have passed through: see _certificate)
+        try:
+            for cand in (res.get("w_start"), res.get("w")):
+                if cand is not None:
+                    wc_, bc_ = pr.split(cand)
+                    if pr.finite(wc_, bc_):
+                        s.max_scale = max(getattr(s, "max_scale", 0.0), pr.rounding_scale(wc_, bc_))
+        except Exception:
+            pass
         finite = pr.finite(w, b) and np.all(np.isfinite(res["obj_out"])) \
             and not np.isnan(res["stop_crit"])
         if not finite:
@@ -278,6 +287,16 @@ class Judge:
             curv = "local" if s.solver_name == "ProxNewton" else "global"
             cert = pr.certificate(w, b, criterion=crit, curv=curv)
         allow = cert["allowance"] + self.drift_allow(pr, res, w, b)
+        # the solver's gradient comes from a model fit that was updated in place all the way from
+        # the start point of this session: its rounding error is relative to the *largest* iterate
+        # it passed through, not to the returned one (a start point with mass on a column of scale
+        # 1e9, projected back to ~0, leaves 1e-8 in the buffer - and 1e-8 x 1e9 in the gradient)
+        try:
+            sc_now = pr.rounding_scale(w, b)
+            if getattr(s, "max_scale", 0.0) > sc_now > 0:
+                allow += cert["allowance"] * (s.max_scale / sc_now - 1.0)
+        except Exception:
+            pass
         bound = tol * (1 + REL) + allow
         res["cert"] = cert["value"]
         res["cert_full"] = dict(value=float(cert["value"]), coef_part=float(cert["coef_part"]),
